@@ -56,6 +56,24 @@ def insert_at(code, k, ins):
     return new
 
 
+def reachable(code):
+    """pcs control can reach from pc 0 (to tell dead code apart in the expectations)"""
+    seen, todo = set(), [0]
+    while todo:
+        pc = todo.pop()
+        if pc in seen or pc < 0 or pc >= len(code):
+            continue
+        seen.add(pc)
+        i = code[pc]
+        if i["op"] == "Jump":
+            todo.append(pc + i["a"] + 1)
+        elif i["op"] == "JumpIf":
+            todo += [pc + 1, pc + i["a"] + 1]
+        elif i["op"] != "TailCall":
+            todo.append(pc + 1)
+    return seen
+
+
 def find(img, op, pred=lambda i: True, which=0):
     """(function position, pc) of the which-th instruction `op` satisfying pred"""
     n = 0
@@ -199,6 +217,28 @@ def main():
         print("  %-55s %s  %s" % (name, "DETECTED" if ok else "MISSED  ", where or "(no violation reported)"))
         if not ok:
             failures.append("mutation %r: got %r, expected one of %r" % (name, rules, expect))
+    # every Pop of the image dropped in turn: which clauses catch it
+    pops, dead = [], 0
+    for f, fn in enumerate(base2["fns"]):
+        live = reachable(fn["code"])
+        for pc, i in enumerate(fn["code"]):
+            if i["op"] == "Pop" and pc not in live:
+                dead += 1
+            elif i["op"] == "Pop":
+                m = copy.deepcopy(base2)
+                m["fns"][f]["code"] = delete_at(m["fns"][f]["code"], pc)
+                m["id"] = "%s<drop Pop f%d pc%d>" % (base2["id"], f, pc)
+                pops.append(m)
+    sviol, _ = vmstack.vmstack_check(check, pops, "st1b", procs=1)
+    hist = {}
+    for v in sviol:
+        hist[v["rule"]] = hist.get(v["rule"], 0) + 1
+    caught = len({v["id"] for v in sviol})
+    print("  %-55s %s  %d of %d caught: %s (%d more Pops sit in unreachable code)" % (
+          "each reachable Pop of an image dropped in turn",
+          "DETECTED" if caught == len(pops) else "MISSED  ", caught, len(pops), json.dumps(hist, sort_keys=True), dead))
+    if caught != len(pops) or "join_height" not in hist:
+        failures.append("dropping Pops: %d of %d caught, rules %r" % (caught, len(pops), hist))
     # definedness on all paths
     cands = one_path_undefined(base2)
     sviol, _ = vmstack.vmstack_check(check, cands, "st2", procs=1)
